@@ -26,13 +26,15 @@ Sc(st) == [n |-> st.n, th |-> st.theta, lg |-> st.lgCur, emp |-> st.empty]
 \* observations: order-projected bounds (C01), integral estimate in exact mode (C01/C04),
 \* retained count within the configured bound (C18)
 \* C01 (advertised spread): with n entries retained below theta the estimate n/theta has relative
-\* standard deviation sqrt((1 - theta)/n); for n >= 400 the binomial one-sigma bounds lie within
-\* about 12% of it on either side. Compared on squares, in 10^-5 units: (1 - theta)/n * 10^10 is v.
+\* standard deviation sqrt((1 - theta)/n). The binomial one-sigma bounds approach it from above as the
+\* expected number m = n (1 - theta) / theta of screened-out items grows (the excess is about 1/sqrt m:
+\* 16% at m = 38, 27% at m = 15); compared only for m >= 300, on squares, in 10^-5 units:
+\* (1 - theta)/n * 10^10 is v.
 ThetaRelOK(n, o) ==
   LET v == (((100000 - o.th5) * 1000) \div (IF n = 0 THEN 1 ELSE n)) * 100 IN
-  (n >= 400 /\ v >= 10000 /\ o.rel5[1] >= 0) =>
-     \A i \in 1..2 : /\ o.rel5[i] * o.rel5[i] >= (3 * v) \div 4
-                       /\ o.rel5[i] * o.rel5[i] <= (13 * v) \div 10
+  (n >= 400 /\ v >= 10000 /\ o.rel5[1] >= 0 /\ n * ((100000 - o.th5) \div 100) >= 3 * o.th5) =>
+     \A i \in 1..2 : /\ o.rel5[i] * o.rel5[i] >= (7 * v) \div 10
+                       /\ o.rel5[i] * o.rel5[i] <= (14 * v) \div 10
 
 ObsOK(n, theta, mx, empty, lgNom, o) ==
   /\ On("C01") => ThetaRelOK(n, o)
